@@ -303,7 +303,7 @@ def tlc_states(y0, y1, n0, w0):
         r = subprocess.run(
             ["tlc", "-workers", "1", "-noGenerateSpecTE", "-deadlock",
              "-metadir", os.path.join(tmp, "meta"), "-dump", dump,
-             "Calendar"], cwd=tmp, capture_output=True, text=True, timeout=1200)
+             "Calendar"], cwd=tmp, env=dict(os.environ, JAVA_TOOL_OPTIONS="-Djava.io.tmpdir=" + tmp), capture_output=True, text=True, timeout=1200)
         if "Model checking completed. No error has been found" not in r.stdout:
             raise RuntimeError("TLC failed:\n" + r.stdout[-2000:] + r.stderr[-500:])
         txt = open(dump + ".dump").read()
